@@ -179,7 +179,7 @@ func run(param json.RawMessage, ctx *explore.Ctx, viols *[]xrun.Viol) string {
 		type op struct{ kind, key string }
 		var ops []op
 		for _, k := range lastScanned() {
-			for _, kind := range []string{"overwrite", "delete", "mark-expired", "mark-young", "revive"} {
+			for _, kind := range []string{"overwrite", "delete", "mark-expired", "mark-young", "mark-future", "revive"} {
 				ops = append(ops, op{kind, k})
 			}
 		}
@@ -213,6 +213,11 @@ func run(param json.RawMessage, ctx *explore.Ctx, viols *[]xrun.Viol) string {
 			case "mark-expired", "insert-expired":
 				v := world.MakeHdr(uint64(fixedNow.Add(-retention).UnixNano())-7, uint64(txn.ID()), 1, 0, nil)
 				touched[dk] = "expired-marker:" + string(v)
+				return txn.Put(dbi, []byte(o.key), v, 0)
+			case "mark-future":
+				// a deletion stamped later than the start of the pass (made during the pass, or by an instance whose clock is ahead)
+				v := world.MakeHdr(uint64(fixedNow.UnixNano())+5_000_000_000, uint64(txn.ID()), 1, 0, nil)
+				touched[dk] = "put:" + string(v)
 				return txn.Put(dbi, []byte(o.key), v, 0)
 			case "mark-young":
 				v := world.MakeHdr(uint64(fixedNow.UnixNano())-2, uint64(txn.ID()), 1, 0, nil)
@@ -486,5 +491,52 @@ func main() {
 		p.Samples = []any{"key00001=X key00002=E ..."}
 		r.AddPart(p)
 	}
+	// the retention the configuration stands for (fractional day counts are allowed)
+	{
+		p := &ev.Part{Name: "retention-of-fractional-day-counts", Engine: "E1", Exhaustive: true, Bound: "retention_days {0.25, 0.5, 1, 1.5, 2.5, 30.75, 370}: RetentionDuration() = days x 24 h (float32 tolerance); one real pass with 0.5 days: a one-hour-old marker survives, a 13-hour-old one is removed"}
+		for _, days := range []float32{0.25, 0.5, 1, 1.5, 2.5, 30.75, 370} {
+			got := config.Sweeper{RetentionDays: days}.RetentionDuration()
+			want := time.Duration(float64(days) * 24 * float64(time.Hour))
+			p.Executions++
+			if d := got - want; d > want/100000 || d < -want/100000 {
+				r.Violate(p.Name, "retention-duration-wrong", fmt.Sprintf("retention_days=%v: RetentionDuration() = %v, expected %v", days, got, want), map[string]any{"retention_days": days})
+			}
+		}
+		for _, native := range []bool{true} {
+			e := world.NewEnv(16 << 20)
+			now := time.Now()
+			must(e.Update(func(txn *lmdb.Txn) error {
+				dbi, err := txn.OpenDBI("d", lmdb.Create)
+				if err != nil {
+					return err
+				}
+				must(txn.Put(dbi, []byte("young"), world.MakeHdr(uint64(now.Add(-time.Hour).UnixNano()), 1, 1, 0, nil), 0))
+				must(txn.Put(dbi, []byte("old"), world.MakeHdr(uint64(now.Add(-13*time.Hour).UnixNano()), 1, 1, 0, nil), 0))
+				return nil
+			}))
+			sw := sweeper.New("db", config.Sweeper{Enabled: true, RetentionDays: 0.5, LockDuration: time.Hour, ReleaseDuration: time.Millisecond}, e.Env, quiet, native)
+			err := sw.VerifSweepOnce(context.Background())
+			p.Executions++
+			p.Transitions++
+			have := map[string]bool{}
+			for _, d := range e.RawDump() {
+				for _, en := range d.Entries {
+					have[string(en.Key)] = true
+				}
+			}
+			if err != nil || !have["young"] || have["old"] {
+				r.Violate(p.Name, "fractional-retention-pass-wrong", fmt.Sprintf("retention_days=0.5: err=%v, one-hour-old marker present=%v (must stay), 13-hour-old marker present=%v (must go)", err, have["young"], have["old"]), nil)
+			}
+			e.Destroy()
+		}
+		p.States, p.Distinct = p.Executions, 2
+		r.AddPart(p)
+	}
 	r.Finish()
+}
+
+func must(err error) {
+	if err != nil {
+		panic(err)
+	}
 }
